@@ -64,7 +64,7 @@ theorem pathLexists_run (p : Nat) (c : Ctx) (s : St) (ha : Adm c) :
 
 /-- `Process._readlink(path, fallback="")` on /proc/<p>/exe|cwd: the FileNotFoundError it lets
     through is raised only where `wrap_exceptions` resolves it (`FnfSafe`) -/
-theorem readlinkM_safe (r : Bool) (p : Nat) (l : PLink) :
+theorem readlinkM_safe (r : Host) (p : Nat) (l : PLink) :
     Tri (ExcOK p) (readlinkM (goodCfg r) p (.link p l)) (fun _ => True) := by
   intro c s ha hi
   obtain ⟨r1, s1, h1, hk1, hc1, hr1⟩ :=
@@ -105,7 +105,7 @@ theorem readlinkM_safe (r : Bool) (p : Nat) (l : PLink) :
 
 /-! ### the three memoized readers -/
 
-variable (r : Bool) (p : Nat)
+variable (r : Host) (p : Nat)
 
 theorem parseStatFile_safe : Tri (PsOnly p) (Plat.parseStatFile (goodCfg r) p) (fun _ => True) := by
   unfold Plat.parseStatFile
@@ -225,15 +225,16 @@ theorem parseSmapsRollup_safe : Tri (ExcOK p) (Plat.parseSmapsRollup (goodCfg r)
 theorem memoryFullInfo_safe : Tri (PsOnly p) (Plat.memoryFullInfo (goodCfg r) p) (fun _ => True) := by
   unfold Plat.memoryFullInfo
   refine W_safe r _ p (by rfl) ?_
-  cases r
-  · show Tri (ExcOK p) (Plat.parseSmaps (goodCfg false) p >>= fun _ => Plat.memoryInfo (goodCfg false) p) _
-    exact tri_bind (inner (parseSmaps_safe false p)) (fun _ _ => inner (memoryInfo_safe false p))
+  obtain ⟨ro, le⟩ := r
+  cases ro
+  · show Tri (ExcOK p) (Plat.parseSmaps (goodCfg ⟨false, le⟩) p >>= fun _ => Plat.memoryInfo (goodCfg ⟨false, le⟩) p) _
+    exact tri_bind (inner (parseSmaps_safe ⟨false, le⟩ p)) (fun _ _ => inner (memoryInfo_safe ⟨false, le⟩ p))
   · show Tri (ExcOK p)
-      (tryCatch (Plat.parseSmapsRollup (goodCfg true) p)
-          (fun e => if catches (goodCfg true).fullInfoCatch e then some (Plat.parseSmaps (goodCfg true) p) else none)
-        >>= fun _ => Plat.memoryInfo (goodCfg true) p) _
-    exact tri_bind (tri_tryCatch_same (parseSmapsRollup_safe true p) (inner (parseSmaps_safe true p)))
-      (fun _ _ => inner (memoryInfo_safe true p))
+      (tryCatch (Plat.parseSmapsRollup (goodCfg ⟨true, le⟩) p)
+          (fun e => if catches (goodCfg ⟨true, le⟩).fullInfoCatch e then some (Plat.parseSmaps (goodCfg ⟨true, le⟩) p) else none)
+        >>= fun _ => Plat.memoryInfo (goodCfg ⟨true, le⟩) p) _
+    exact tri_bind (tri_tryCatch_same (parseSmapsRollup_safe ⟨true, le⟩ p) (inner (parseSmaps_safe ⟨true, le⟩ p)))
+      (fun _ _ => inner (memoryInfo_safe ⟨true, le⟩ p))
 
 theorem memoryMaps_safe : Tri (PsOnly p) (Plat.memoryMaps (goodCfg r) p) (fun _ => True) := by
   unfold Plat.memoryMaps
